@@ -56,12 +56,13 @@ ExeMode   == "exe"
 \*   swapout replaces sys.stdout/stderr   coro    coroutine function returning 7
 \*   tenv    reads RPV_T which the task description's environment provides
 \*   sysexit leaves via SystemExit
+\*   sig     (proc / shell only) the process is killed by a signal
 Kinds     == {"ret", "print", "raise", "setenv", "delenv", "swapout", "coro", "tenv", "sysexit"}
-ProcKinds == {"ret", "print", "raise", "tenv"}
+ProcKinds == {"ret", "print", "raise", "tenv", "sig"}
 KindOK(k, m) == IF m \in ProcModes THEN k \in ProcKinds
                 ELSE IF k = "coro" THEN m = "func" ELSE k \in Kinds
 
-Succeeds(k)  == k \notin {"raise", "sysexit"}
+Succeeds(k)  == k \notin {"raise", "sysexit", "sig"}
 
 \* expected outcome tuple, in the projection the rig logs (newline shown as /)
 ExpVal(k, m) == IF m \in ProcModes \/ ~Succeeds(k) THEN "none"
